@@ -508,7 +508,9 @@ class Visitor(ast.NodeVisitor):
                 # Its value is not known here, so it must not be recorded (and represented) either.
                 return PLACEHOLDER
 
-        if result is None and hasattr(builtins, node.id):
+        elif hasattr(builtins, node.id):
+            # Only a name which is not bound by the condition (argument, closure, global) refers to a built-in;
+            # a variable bound to None shadows the built-in of the same name.
             result = getattr(builtins, node.id)
 
         if result is None and node.id != "None":
